@@ -105,6 +105,37 @@ def replay(run, ob, inputs):
     return path, failed
 
 
+def check_hermite_init(reg, src, prop):
+    """CubicHermiteInterp.__init__: the piece stores the six quantities it is given under the names __call__ and grad read them by --
+    (t0, p0, m0) stay the data of the end t0 and (t1, p1, m1) those of the end t1, for either orientation of (t0, t1).  The contracts of
+    __call__ / grad are stated over the fields; this is the link from the constructor's arguments to them (real __call__ / grad inlined)."""
+    import z3
+    from pyvc.executor import State, Ctx, Raised
+    from pyvc.values import Ref
+    fi = src.func("desolver/utilities/interpolation.py", "CubicHermiteInterp.__init__")
+    ex = new_executor(src, reg)
+    ex.prop = prop
+    st = State()
+    names = ("t0", "t1", "p0", "p1", "m0", "m1")
+    vals = [z3.Real("arg_" + n) for n in names]
+    ctx = Ctx(fi, None, fi.cls, tag="CubicHermiteInterp.__init__")
+    paths = ex.instantiate("CubicHermiteInterp", vals, {}, st, ctx, None)
+    pre = "%s/CubicHermiteInterp.__init__/" % prop
+    ok_paths = [(s_, v) for s_, v in paths if not isinstance(v, Raised)]
+    reg.ground(pre + "constructs", "post", "CubicHermiteInterp.__init__", len(ok_paths) == len(paths) >= 1, detail="%d paths, %d normal" % (len(paths), len(ok_paths)))
+    from pyvc.values import BoundMethod
+    ex.inline.update(["CubicHermiteInterp.__call__", "CubicHermiteInterp.grad", "CubicHermiteInterp.__affine_transform"])
+    t0, t1, p0, p1, m0, m1 = vals
+    for k, (s_, v) in enumerate(ok_paths):
+        # stated through the piece's own evaluation (robust to how the fields are laid out): built from (t0, t1, p0, p1, m0, m1) it takes
+        # the value p0 / p1 and the slope m0 / m1 at t0 / t1 -- the data of each end stay with that end, for either orientation
+        s_.assume(t0 != t1)
+        for meth, at, want, what in (("__call__", t0, p0, "value-at-t0-is-p0"), ("__call__", t1, p1, "value-at-t1-is-p1"), ("grad", t0, m0, "slope-at-t0-is-m0"), ("grad", t1, m1, "slope-at-t1-is-m1")):
+            for j, (s2, r) in enumerate(ex.call_method(BoundMethod(v, meth), [at], {}, s_.fork(), ctx, None)):
+                ex.prove(s2, ctx, (r == want) if z3.is_expr(r) and not isinstance(r, Raised) else False, "post", "%s#%d.%d" % (what, k, j))
+    return fi
+
+
 def run(tier):
     R = common.Run("C17", "proof", tier)
     R.assume("A1", "A2", "A3", "A4")
@@ -134,6 +165,7 @@ def run(tier):
                                             ["result == " + HDQ], HERM_GHOST)),
     ]
     try:
+        R.under_contract(check_hermite_init(reg, src, "C17"))
         for fn, c in jobs:
             fi = src.func(c.file, c.func)
             R.under_contract(fi)
